@@ -297,7 +297,7 @@ fn run_scenario(sc: &Scenario) -> (Outcome, Vec<(String, String)>, Vec<String>) 
                 x.cur_task = i;
                 x.in_callback = true;
             });
-            let code = alloc_track::guest(|| rt::start_task(guest::root(env.clone(), i, p.clone()))) as u32;
+            let code = alloc_track::guest(|| rt::start_task(Probe { inner: Box::pin(guest::root(env.clone(), i, p.clone())), task: i })) as u32;
             h(|x| {
                 x.in_callback = false;
                 x.tasks[i].callbacks += 1;
@@ -503,6 +503,51 @@ fn drive(codes: &mut Vec<Option<u32>>, pace: u8, cancel_after: u8, cancel_only: 
     }
 }
 
+thread_local! {
+    /// per task: was the task's waker invoked since the start of the last poll of its program
+    /// (a fixed array: nothing here may allocate inside the tracked guest heap)
+    static POLL_WOKEN: [std::cell::Cell<bool>; 16] = const { [const { std::cell::Cell::new(true) }; 16] };
+}
+
+/// wraps a task's program: notes the start of every poll and every use of the task's waker
+struct Probe {
+    inner: std::pin::Pin<Box<dyn std::future::Future<Output = ()>>>,
+    task: usize,
+}
+
+struct ProbeWaker {
+    inner: std::task::Waker,
+    task: usize,
+}
+
+impl std::task::Wake for ProbeWaker {
+    fn wake(self: std::sync::Arc<Self>) {
+        self.wake_by_ref()
+    }
+    fn wake_by_ref(self: &std::sync::Arc<Self>) {
+        POLL_WOKEN.with(|w| {
+            if let Some(c) = w.get(self.task) {
+                c.set(true)
+            }
+        });
+        self.inner.wake_by_ref();
+    }
+}
+
+impl std::future::Future for Probe {
+    type Output = ();
+    fn poll(mut self: std::pin::Pin<&mut Self>, cx: &mut std::task::Context<'_>) -> std::task::Poll<()> {
+        let task = self.task;
+        POLL_WOKEN.with(|w| {
+            if let Some(c) = w.get(task) {
+                c.set(false)
+            }
+        });
+        let waker = std::task::Waker::from(std::sync::Arc::new(ProbeWaker { inner: cx.waker().clone(), task }));
+        self.inner.as_mut().poll(&mut std::task::Context::from_waker(&waker))
+    }
+}
+
 /// book-keeping after a callback returned `code`; None = the task exited
 fn after_callback(i: usize, code: u32) -> Option<u32> {
     h(|x| {
@@ -520,7 +565,15 @@ fn after_callback(i: usize, code: u32) -> Option<u32> {
                 }
                 return None;
             }
-            1 => x.tasks[i].yields += 1,
+            1 => {
+                x.tasks[i].yields += 1;
+                // "yields only when woken during polling": without `async-spawn` the task's own
+                // waker reaches the guest program, so a wake-up during the last poll is visible
+                #[cfg(not(feature = "spawn"))]
+                if !POLL_WOKEN.with(|w| w.get(i).map(|c| c.get()).unwrap_or(true)) {
+                    x.violation("yield-without-wakeup", format!("task {i} returned YIELD although nothing woke it during its last poll (it can only be blocked on its waitables: WAIT expected)"));
+                }
+            }
             2 => {
                 x.tasks[i].waits += 1;
                 let s = code >> 4;
